@@ -1894,3 +1894,33 @@ def wire_views_cached(F):
     if k not in _WV:
         _WV[k] = wire_views(F)
     return _WV[k]
+
+
+@rule('R02.14', ['C02', 'C01', 'C13'], floor=1, clause='when the peer window reopens, the zero-window-probe timer gives way to the idle timer only if nothing is in flight; with unacknowledged data outstanding a retransmission timer takes over')
+def r02_14(ctx):
+    F = ctx.F
+    SOCK = 'socket::tcp::Socket'
+    TM = 'socket::tcp::Timer'
+    b = ctx.method(SOCK, 'process')
+    sfi = ctx.method(TM, 'set_for_idle')
+    izw = ctx.method(TM, 'is_zero_window_probe')
+    sites = [x[0] for x in b.calls() if b.callee_name(x[1]) == sfi.key]
+    stop = [s_ for s_ in sites if not unguarded(F, b, [s_], p_call(lambda n: n == izw.key, True))]
+    ctx.need(stop, "the `stopping zero-window-probe timer` site in tcp::Socket::process")
+    nothing_in_flight = lambda f: (f[0] == 'rel' and f[1] == 'Eq' and any(l.endswith('.remote_last_seq') for l in leafs(f[2]) | leafs(f[3])) and
+                                   any(l.endswith('.local_seq_no') for l in leafs(f[2]) | leafs(f[3]))) or \
+        (f[0] == 'bool' and f[2] is True and is_call(strip(f[1]), '::is_empty') and any(l.endswith('.tx_buffer') for l in leafs(f[1]))) or \
+        (f[0] == 'rel' and f[1] == 'Eq' and any(l.endswith('::flight_size') for l in leafs(f[2]) | leafs(f[3]) if l.startswith('C:')) and 0 in (const_of(f[2]), const_of(f[3])))
+    sfr = ctx.method(TM, 'set_for_retransmit')
+    rblocks = {x[0] for x in b.calls() if b.callee_name(x[1]) == sfr.key}
+    eq_edges = set(guard_edges(F, b, nothing_in_flight))
+    for s_ in stop:
+        t = b.blocks[s_]['t']
+        # either the idle timer is only chosen when nothing is in flight, or it is replaced by a retransmission timer on every
+        # continuation on which something is
+        followed = t[4] is not None and not (set(b.return_blocks()) & set(b.reachable(start=t[4], cut_edges=eq_edges, cut_blocks=rblocks)))
+        if unguarded(F, b, [s_], nothing_in_flight) and not followed:
+            ctx.bad("process|zwp-stop|data-in-flight", "when a window update reopens the peer window, process() replaces the zero-window-probe timer by the idle timer without knowing that "
+                    "nothing is in flight: segments sent before the window closed and still unacknowledged are never retransmitted, poll_at answers Ingress and the connection stalls", body=b, bb=s_)
+        else:
+            ctx.ok(('process', 'zwp-stop', s_), sample=dict(fn='process', idle_only_when='nothing in flight'))
